@@ -112,6 +112,8 @@ pub fn project(name: &str) -> Project {
             let e3 = |x: &str| format!("{x}\n-TXTPP#temp e3.tmp\n-body\nTXTPP#include missing.txt\n");
             let e4 = |x: &str| format!("{x}\n-TXTPP#temp x.txtpp\n-overwritten\n");
             let xs = |x: &str| format!("{x}\n");
+            // a tag that is stored and never used: the error is only detected at the end of the file
+            let e5 = |x: &str| format!("{x}\n-TXTPP#temp e5.tmp\n-body\n-TXTPP#tag T\n-TXTPP#write w\nlast line\n");
             Project {
                 name: name.into(),
                 sources: vec![
@@ -121,17 +123,21 @@ pub fn project(name: &str) -> Project {
                     src("e3.txt.txtpp", "e3.txt", &["e3.tmp"], &[], &e3("e3"), &e3("e3b")),
                     src("e4.txt.txtpp", "e4.txt", &[], &[], &e4("e4"), &e4("e4b")),
                     src("x.txtpp", "x", &[], &[], &xs("plain source x"), &xs("plain source x2")),
+                    src("e5.txt.txtpp", "e5.txt", &["e5.tmp"], &[], &e5("e5"), &e5("e5b")),
                 ],
                 plain,
                 sels: vec![
-                    sel(&["."], false, &[0, 1, 2, 3, 4, 5]),
+                    sel(&["."], false, &[0, 1, 2, 3, 4, 5, 6]),
                     sel(&["ok.txt", "x"], false, &[0, 5]),
                     sel(&["e1.txt", "e2.txt", "e3.txt", "e4.txt"], false, &[1, 2, 3, 4]),
+                    sel(&["e5.txt"], false, &[6]),
                 ],
             }
         }
         "nested" => {
             decoys(&mut plain, &["", "sub", "sub/deep"]);
+            // a second name of sub/: a non-recursive scan of the base must not descend through it
+            plain.insert("more".into(), Node::Link("sub".into()));
             let top = |x: &str| format!("{x}\nTXTPP#include sub/mid.txt\n-TXTPP#temp sub/top.tmp\n-tt {x}\n");
             let mid = |x: &str| format!("{x}\nTXTPP#include deep/leaf\n-TXTPP#temp ../mid.tmp\n-mm {x}\n+TXTPP#run echo x >> ../../m/mid\n");
             let leaf = |x: &str| format!("{x}\n-TXTPP#temp ../../leaf.tmp\n-ll {x}\n-\n");
